@@ -182,19 +182,21 @@ def doc_neighbor(p, l1, l2):
     return abs(l2[0] - l1[0]) <= d or abs(l2[2] - l1[2]) <= d or abs((l2[0] + l2[2]) / 2 - (l1[0] + l1[2]) / 2) <= d
 
 
-def lines_cases(ctx, n):
+def lines_cases(ctx, n, vertical=False):
+    """lines (or, transposed, the columns of vertical writing) placed at the thresholds of the neighbour relation"""
     from pdfminer.layout import LTTextBox, LTChar
+    import math
     for i in range(n):
-        r = ctx.sub("lines", i)
+        r = ctx.sub("vlines" if vertical else "lines", i)
         p = lg.gen_params(r)
-        p["detect_vertical"] = False
+        p["detect_vertical"] = vertical
         if p["line_margin"] < 0:
             p["line_margin"] = F(1, 2)
         p["char_margin"], p["line_overlap"], p["word_margin"] = F(2), F(1, 2), F(1, 8)
         h = r.choice([F(8), F(10), F(16)])
         w = h / 2
         lines = [(F(100), F(500), h, r.randint(2, 6))]
-        kind = i % 4
+        kind = i % 5
         delta = r.choice([-E8, F(0), E8])
         d = p["line_margin"] * h
         if kind == 0:        # vertical gap at threshold (gap between the lower line's top and the upper line's bottom)
@@ -207,6 +209,10 @@ def lines_cases(ctx, n):
         elif kind == 2:      # left offset at threshold, other edges far away
             n1 = lines[0][3]
             lines.append((F(100) + d + delta, F(500) - h - E8, h, n1 + 5))
+        elif kind == 4:      # centre offset at threshold, both edges far away (the second line is longer on both sides)
+            n1 = lines[0][3]
+            m = int(math.ceil((2 * d + 1) / w)) + 1
+            lines.append((F(100) - m * w + d + delta, F(500) - h - E8, h, n1 + 2 * m))
         else:                # three lines, chain
             y2 = F(500) - h - r.choice([E8, d, d + E8, 2 * d + 1])
             lines.append((F(100), y2, h, r.randint(2, 6)))
@@ -217,7 +223,12 @@ def lines_cases(ctx, n):
             spans.append((len(gs), len(gs) + nn))
             gs += line_of(x, y, hh, nn, ww)
         boxes_l = [(gs[a][0][0], gs[a][0][1], gs[b - 1][0][2], gs[b - 1][0][3]) for a, b in spans]
-        fam = "lines-%d" % kind
+        if vertical:
+            # vertical writing is the exact transpose: glyphs stacked in columns, columns side by side; the documented
+            # relation (distance and size relative to the column WIDTH, lower / upper / centre alignment) is the
+            # horizontal one with x and y exchanged, so the oracle keeps working on the untransposed boxes
+            gs = [((b[1], b[0], b[3], b[2]), t) for b, t in gs]
+        fam = ("vlines-%d" if vertical else "lines-%d") % kind
         inp = {"lines": [[str(v) for v in l] for l in lines], "params": {k: (None if v is None else str(v)) for k, v in p.items()}, "delta": str(delta)}
         try:
             page, chars = analyse(gs, p)
@@ -318,6 +329,7 @@ def scale_cases(ctx, n):
 def correspondence(ctx):
     threshold_cases(ctx, ctx.n(400, 8000))
     lines_cases(ctx, ctx.n(300, 6000))
+    lines_cases(ctx, ctx.n(200, 4000), vertical=True)
     columns_cases(ctx, ctx.n(100, 2000))
     scale_cases(ctx, ctx.n(200, 4000))
 
